@@ -192,8 +192,18 @@ func goid() int64 {
 	return id
 }
 
-// Go starts a named actor goroutine inside the bubble.
+// Go starts a named actor goroutine inside the bubble. The actor parks before its first
+// instruction, so that nothing it does races with actors started at the same time.
 func (s *Sim) Go(name string, f func()) {
+	s.spawn(name, f, true)
+}
+
+// GoNow starts a named goroutine that runs at once (infrastructure such as Transport.Start).
+func (s *Sim) GoNow(name string, f func()) {
+	s.spawn(name, f, false)
+}
+
+func (s *Sim) spawn(name string, f func(), park bool) {
 	go func() {
 		id := goid()
 		s.mu.Lock()
@@ -210,6 +220,9 @@ func (s *Sim) Go(name string, f func()) {
 			}
 			s.mu.Unlock()
 		}()
+		if park {
+			s.Park("step", name, -1, " start", nil)
+		}
 		f()
 	}()
 }
